@@ -453,15 +453,16 @@ class ExcelCompiler:
             # need to be able to 'set' an empty cell, set to not None
             cell_or_range.value = value
 
-            # reset the node + its dependencies
+            # reset the node + its dependencies, an emptied cell (value None)
+            # looks uncomputed and must not stop the reset at itself
             if not self.cycles:
-                self._reset(cell_or_range)
+                self._reset(cell_or_range, force=True)
 
             # set the value
             cell_or_range.value = value
 
-    def _reset(self, cell):
-        if cell.needs_calc:
+    def _reset(self, cell, force=False):
+        if cell.needs_calc and not force:
             return
         self.log.info(f"Resetting {cell.address}")
         cell.value = None
